@@ -42,6 +42,10 @@ CLAIMED = {
     text="Decides ordering and agreement, not arithmetic: (R1) each of the 7 set_checksum sites is computed over the object it is stored in, dominates the copy of that object into the enclosing payload, and no setter on the object is reachable afterwards (the identical-value UDP length rewrite is recognised); (R2) IPv4 total length / IPv6 payload length are computed from len(packet()) of the very L4 object copied in, the outer buffer is allocated as header size + that length, the Ethernet buffer likewise, IHL 5 / data offset 5 with header-sized prefixes, UDP length = len of the UDP packet on every reply path; (R3) the addresses fed to the TCP/UDP/ICMPv6 checksums are exactly the values the IP header receives along the paths through that checksum site (so the ND-target substitution is applied to both); (R4) TTL 64, DF, window 65535, hop limit 255 on exactly the Neighbor-Advert type edge and 64 under hop_limit==0 on every path; (R5) every header field a layer owns is written on every path to a reply; (R6) a zero UDP/IPv6 checksum is replaced by 0xffff.",
     note="Checksum arithmetic and setter byte offsets are pnet's (trusted); `as u16` truncation above 64 KiB is not reachable with 4096-byte frames and is not decided.",
     technique="typestate/ordering via reachability on MIR + provenance agreement between length fields, allocations and copies", ref="§4 C04"),
+ 'C05': dict(
+    text="(R1) gates as exact dispatch facts: the ARP reply is reachable only through operation==1 (the switch has no other arm), ICMPv4 only through type==8 and code==0, ICMPv6 only through code==0 (tested before anything else) and the type edges {135,128}, with nd_ns_repl on the 135 arm and the echo builder on the 128 arm; all other values therefore reach no reply. (R2) field provenance of every reply: ARP op 2, hardware type 1, sender=(configured MAC, requested address), target=(requester pair), buffer = copy of the request, every setter on every path; echo replies type 0/129, code 0, payload = the request payload slice (identifier, sequence, data), buffers sized from that payload; NA = {136,0,flags 0x60,target=solicited target}, option {2,1,configured MAC}, buffer = packet_size(advert)+packet_size(option), populate then set_options, relayed unchanged.",
+    note="pnet payload()/setter offsets trusted (in pnet the ICMP payload starts at the identifier). Membership of the target address is C02.",
+    technique="must-pass-through dispatch gates + provenance tables on MIR", ref="§4 C05"),
 }
 
 NOT_YET = {}
